@@ -333,4 +333,142 @@ example :
       | .ok s' => s'.orders.map (·.id) == [1, 2, 13]
       | .error _ => false) = true := by decide
 
+/-! ## 9. A rejected message moves nothing — because it ran on a cache
+
+`closeSettlement` issues its bank sends one after the other; the bank refuses a send whose sender cannot
+cover it (`canSend`: balance minus what is on hold).  The keeper collects such errors, **goes on** with the
+remaining transfers and `CollectFees`, and returns the errors at the end (keeper/fulfillment.go:284-298) —
+so when it fails, coins have already moved in the store it was writing to.  The model states this
+explicitly: `runSends` writes every accepted send to the message's cache, `KState.closeCached` returns that
+cache together with the error, and `KState.close` — the only place where the cache meets the state —
+keeps it on success and drops it on error.  The `settleapp` stream exercises it on the real code with
+fillers that cannot cover the first transfer, the second transfer, or only the fees. -/
+
+/-- **The writes are incremental.**  Whatever `closeSettlement` returns, the cache it leaves is the old
+ledger plus the entries of the sends that went through (a sub-sequence `sent` of its sends, in order);
+it returns no error exactly when all of them did. -/
+theorem runSends_incremental (locked : Addr → Coins) (L : Ledger) (ts : List Transfer) :
+    ∃ sent : List Transfer, sent.Sublist ts ∧ (runSends locked L ts).1 = L ++ sent.flatMap Transfer.ledger ∧
+      ((runSends locked L ts).2 = true → sent = ts) := by
+  induction ts generalizing L with
+  | nil => exact ⟨[], .slnil, by simp [runSends], fun _ => rfl⟩
+  | cons t rest ih =>
+    unfold runSends
+    split
+    · obtain ⟨done, h1, h2, h3⟩ := ih (L ++ t.ledger)
+      exact ⟨t :: done, h1.cons_cons t, by rw [h2]; simp [List.append_assoc], fun h => by rw [h3 h]⟩
+    · obtain ⟨done, h1, h2, _⟩ := ih L
+      exact ⟨done, h1.cons t, h2, fun h => by simp at h⟩
+
+/-- **Every send of an accepted message was covered when it was issued**: `runSends` succeeds iff each
+send's inputs are spendable on the ledger as the sends before it left it — in particular a fee may be
+paid out of what the same message has just transferred to the payer, and may not be paid out of what it
+has just taken from it. -/
+theorem runSends_ok_iff (locked : Addr → Coins) (L : Ledger) (ts : List Transfer) :
+    (runSends locked L ts).2 = true ↔
+      ∀ (i : Nat) (t : Transfer), ts[i]? = some t → t.inputs.all (canSend locked (L ++ (ts.take i).flatMap Transfer.ledger)) = true := by
+  induction ts generalizing L with
+  | nil => simp [runSends]
+  | cons t rest ih =>
+    unfold runSends
+    split
+    · rename_i hc
+      rw [ih]
+      constructor
+      · intro h i t' hi
+        cases i with
+        | zero => simp only [List.getElem?_cons_zero, Option.some.injEq] at hi; subst hi; simpa using hc
+        | succ i =>
+          have := h i t' (by simpa using hi)
+          simpa [List.append_assoc] using this
+      · intro h i t' hi
+        have := h (i + 1) t' (by simpa using hi)
+        simpa [List.append_assoc] using this
+    · rename_i hc
+      simp only [Bool.false_eq_true, false_iff]
+      intro h
+      have := h 0 t (by simp)
+      simp only [List.take_zero, List.flatMap_nil, List.append_nil] at this
+      exact hc this
+
+/-- **A failed `closeSettlement` moves nothing — because its cache is dropped.**  If the keeper function
+returns an error `e` with the cache `cache`, then (1) the message's result is that error and nothing of
+the cache is kept: `KState.apply` returns the state unchanged (balances, orders, holds); although (2) the
+cache does contain the entries of every send that went through before and after the failing one (`sent`),
+so the unchanged state is due to the cache being discarded, not to nothing having been written. -/
+theorem failed_close_is_discarded {s cache : KState} {m c : Addr} {st : Settlement} {e : KErr}
+    (h : s.closeCached m c st = (cache, some e)) :
+    s.close m c st = .error e ∧
+    ∃ (ex : Coins) (sent : List Transfer), sent.Sublist (closeSends m c st ex) ∧
+      cache.ledger = s.ledger ++ sent.flatMap Transfer.ledger := by
+  refine ⟨by unfold KState.close; rw [h], ?_⟩
+  unfold KState.closeCached at h
+  split at h
+  · simp only [Prod.mk.injEq] at h
+    exact ⟨[], [], List.nil_sublist _, by rw [← h.1]; simp⟩
+  · rename_i ex hex
+    obtain ⟨done, h1, h2, _⟩ := runSends_incremental (lockedOf (s.keptOrders st)) s.ledger (closeSends m c st ex)
+    refine ⟨ex, done, h1, ?_⟩
+    by_cases hr : (runSends (lockedOf (s.keptOrders st)) s.ledger (closeSends m c st ex)).2 = true
+    · simp [hr] at h
+    · simp only [hr, Bool.false_eq_true, if_false, Prod.mk.injEq] at h
+      rw [← h.1]; exact h2
+
+/-- **A rejected message moves nothing**, at the level of a history: whatever the message and whatever the
+point at which it fails — `ValidateBasic`, fetching the orders, `BuildSettlement`, the totals, or a bank
+send refused in the middle of `closeSettlement` (`failed_close_is_discarded`) — the next state of the
+history is the old state; an accepted message's next state is the cache it wrote. -/
+theorem rejected_moves_nothing (m c : Addr) (s : KState) (op : KOp) :
+    let r := match op with
+      | .create o => s.createOrder o
+      | .settle a b ep => s.msgMarketSettle m c a b ep
+      | .fillBids seller ids ta flat => s.msgFillBids m c seller ids ta flat
+      | .fillAsks buyer ids tp fees => s.msgFillAsks m c buyer ids tp fees
+    (∀ e, r = .error e → s.apply m c op = s) ∧ (∀ s', r = .ok s' → s.apply m c op = s') := by
+  intro r
+  constructor
+  · intro e he
+    unfold KState.apply
+    cases op <;> simp only [r] at he <;> simp only [he]
+  · intro s' he
+    unfold KState.apply
+    cases op <;> simp only [r] at he <;> simp only [he]
+
+/-- the example state with buyer `B1` owning no `fig` (its settlement fee is 3 fig) -/
+def exPoorFunds : Ledger :=
+  ["S1", "X1", "B2"].foldl (fun L a => Ledger.credit L a [("apple", 1000), ("usd", 1000), ("fig", 1000)])
+    (Ledger.credit [] "B1" [("apple", 1000), ("usd", 1000)])
+def exPoor : KState := { exState with ledger := exPoorFunds }
+
+/-- non-vacuity of `failed_close_is_discarded`: settling the example request in `exPoor`, every transfer
+goes through on the cache (seller `S1` has received its 116 usd there, the store still has all orders),
+`CollectFees` is refused (`B1` has no fig), the keeper returns `funds` — and the message leaves `exPoor`
+exactly as it was, while the same message is accepted in the fully funded `exState` -/
+example :
+    (match buildSettlement exAsks exBids exPoor.lookup with
+      | .ok st =>
+        let r := exPoor.closeCached "mkt" "feecol" st
+        r.2 == some KErr.funds && bal r.1.ledger "S1" "usd" == 1000 + 116 && bal exPoor.ledger "S1" "usd" == 1000
+          && bal r.1.ledger "mkt" "fig" == 0
+      | .error _ => false) = true ∧
+    exPoor.msgMarketSettle "mkt" "feecol" [1, 2] [11, 12, 13] true = .error .funds ∧
+    exPoor.apply "mkt" "feecol" (.settle [1, 2] [11, 12, 13] true) = exPoor ∧
+    exState.apply "mkt" "feecol" (.settle [1, 2] [11, 12, 13] true) ≠ exState := by decide
+
+/-- bidders funded, seller `S9` owns 10 apples and nothing else -/
+def exApplesOnly : Ledger :=
+  Ledger.credit (["X1", "B1"].foldl (fun L a => Ledger.credit L a [("apple", 1000), ("usd", 1000), ("fig", 1000)]) [])
+    "S9" [("apple", 10)]
+
+/-- a fee is paid out of what the same message has just transferred to the payer: seller `S9` fills bids 11
+and 12 (114 usd) owning apples only — its 2 usd flat fee and 1 usd ratio fee come out of the price; the
+same fill with a 2 fig flat fee is refused after both transfers ran, and moves nothing -/
+example :
+    let s : KState := { exState with ledger := exApplesOnly }
+    (match s.msgFillBids "mkt" "feecol" "S9" [11, 12] [("apple", 10)] [("usd", 2)] with
+      | .ok s' => bal s'.ledger "S9" "usd" == 114 - 3 && bal s'.ledger "S9" "apple" == 0
+      | .error _ => false) = true ∧
+    s.msgFillBids "mkt" "feecol" "S9" [11, 12] [("apple", 10)] [("fig", 2)] = .error .funds ∧
+    s.apply "mkt" "feecol" (.fillBids "S9" [11, 12] [("apple", 10)] [("fig", 2)]) = s := by decide
+
 end PvProofs.C01
